@@ -450,3 +450,146 @@ fn c19_defer_witness() {
     let _ = defer_body(&log, exit, 3);
     assert!(false, "witness: end of harness reachable");
 }
+
+// A third instantiation: an adapter with an *inexact* size_hint (Filter), so that helpers must not
+// trust size_hint for the length.  The kept indices are chosen by a symbolic bit mask.
+fn kept(n: usize, mask: u8) -> ([u8; N], usize) {
+    let mut out = [0u8; N];
+    let mut k = 0;
+    let mut i = 0;
+    while i < n {
+        if (mask >> i) & 1 == 1 {
+            out[k] = i as u8;
+            k += 1;
+        }
+        i += 1;
+    }
+    (out, k)
+}
+
+fn check_list<I: Iterator<Item = u8>>(mut it: I, vals: &[u8; N], exp: Option<(usize, usize)>) {
+    let mut k: usize = 0;
+    while k <= N {
+        let x = it.next();
+        match exp {
+            Some((lo, hi)) if lo + k <= hi => {
+                assert!(x == Some(vals[lo + k]), "C19: yielded item differs from the denoted index range");
+            }
+            _ => {
+                assert!(x.is_none(), "C19: iterator yields an item outside the denoted index range");
+                return;
+            }
+        }
+        k += 1;
+    }
+}
+
+#[kani::proof]
+#[kani::unwind(11)]
+fn c19_slice_filter5() {
+    slice_filter(5);
+}
+
+fn slice_filter(nmax: usize) {
+    let n: usize = kani::any();
+    kani::assume(n <= nmax);
+    let mask: u8 = kani::any();
+    let (vals, len) = kept(n, mask);
+    let left: isize = kani::any();
+    let right: isize = kani::any();
+    kani::assume(left >= -(len as isize));
+    kani::assume(left <= len as isize + 1);
+    kani::assume(right >= -(len as isize) - 1 && right <= len as isize + 1);
+    let it = IDX[..n].iter().copied().filter(move |x| (mask >> *x) & 1 == 1).slice(left, right);
+    let exp = slice_oracle(len, left, right);
+    kani::cover!(exp.is_some() && len < n && left < 0, "negative left on a filtered sequence");
+    kani::cover!(exp.is_some() && len < n && right >= 0, "right bound inside a filtered sequence");
+    check_list(it, &vals, exp);
+}
+
+#[kani::proof]
+#[kani::unwind(12)]
+fn c19_drop_filter5() {
+    drop_filter(5);
+}
+
+fn drop_filter(nmax: usize) {
+    let n: usize = kani::any();
+    kani::assume(n <= nmax);
+    let mask: u8 = kani::any();
+    let (vals, len) = kept(n, mask);
+    let d: isize = kani::any();
+    kani::assume(d >= -(len as isize) - 1 && d <= len as isize + 1);
+    let it = IDX[..n].iter().copied().filter(move |x| (mask >> *x) & 1 == 1).drop(d);
+    let (a, b) = drop_oracle(len, d);
+    kani::cover!(d < 0 && a < b && len < n, "drop right on a filtered sequence");
+    check_list(it, &vals, if a < b { Some((a, b - 1)) } else { None });
+}
+
+// A fourth instantiation: default methods plus a legal but *inexact* size_hint (upper bound larger
+// than the number of items by a symbolic slack), cheap enough for the quick tier.
+#[derive(Clone)]
+struct CntHint {
+    lo: u8,
+    hi: u8,
+    slack: usize,
+}
+impl Iterator for CntHint {
+    type Item = u8;
+    fn next(&mut self) -> Option<u8> {
+        if self.lo < self.hi {
+            let x = self.lo;
+            self.lo += 1;
+            Some(x)
+        } else {
+            None
+        }
+    }
+    fn size_hint(&self) -> (usize, Option<usize>) {
+        (0, Some((self.hi - self.lo) as usize + self.slack))
+    }
+}
+impl DoubleEndedIterator for CntHint {
+    fn next_back(&mut self) -> Option<u8> {
+        if self.lo < self.hi {
+            self.hi -= 1;
+            Some(self.hi)
+        } else {
+            None
+        }
+    }
+}
+
+#[kani::proof]
+#[kani::unwind(14)]
+fn c19_slice_inexact_hint() {
+    let len: usize = kani::any();
+    kani::assume(len <= N);
+    let slack: usize = kani::any();
+    kani::assume(slack <= 3);
+    let left: isize = kani::any();
+    let right: isize = kani::any();
+    kani::assume(left >= -(len as isize));
+    kani::assume(left <= len as isize + 1);
+    kani::assume(right >= -(len as isize) - 1 && right <= len as isize + 1);
+    let it = CntHint { lo: 0, hi: len as u8, slack }.slice(left, right);
+    let exp = slice_oracle(len, left, right);
+    kani::cover!(exp.is_some() && slack > 0 && left < 0, "negative left with slack");
+    kani::cover!(exp.is_some() && slack > 0 && right >= 0 && (right as usize) < len, "in-range right with slack");
+    check_seq(it, exp);
+}
+
+#[kani::proof]
+#[kani::unwind(14)]
+fn c19_drop_inexact_hint() {
+    let len: usize = kani::any();
+    kani::assume(len <= N);
+    let slack: usize = kani::any();
+    kani::assume(slack <= 3);
+    let n: isize = kani::any();
+    kani::assume(n >= -(len as isize) - 1 && n <= len as isize + 1);
+    let it = CntHint { lo: 0, hi: len as u8, slack }.drop(n);
+    let (a, b) = drop_oracle(len, n);
+    kani::cover!(n < 0 && a < b && slack > 0, "drop right with slack");
+    check_seq(it, if a < b { Some((a, b - 1)) } else { None });
+}
